@@ -4,6 +4,7 @@ import (
 	"fmt"
 	"go/token"
 	"go/types"
+	"regexp"
 	"strings"
 
 	"golang.org/x/tools/go/ssa"
@@ -253,6 +254,25 @@ func C06(ctx *Ctx) {
 					R.Fail("offsets", "Finalize:u16-window", ctx.Prog.Pos(ev.Pos), "the 16-bit patch does not cover exactly two bytes: "+absint.ValKey(sl))
 				}
 			}
+		}
+	}
+	// references are forgotten only as the entry being patched: a delete on a map whose key is not the
+	// current key of a range over that same map drops recorded references that were never patched
+	nDel := 0
+	for _, ev := range ip.Events {
+		if ev.Kind != "map-update" || ev.Callee != "delete" || len(ev.Args) < 2 {
+			continue
+		}
+		mk, kk := absint.ValKey(ev.Args[0]), absint.ValKey(ev.Args[1])
+		nDel++
+		re := regexp.MustCompile(`next#\d+<(?:top:)?range#\d+\(` + regexp.QuoteMeta(mk) + `\)>\.1`)
+		if !re.MatchString(kk) {
+			f := fieldOfKey(S, mk, "a")
+			name := mk
+			if f >= 0 {
+				name = roles.fieldName(f)
+			}
+			R.Fail("offsets", "Finalize:forgets:"+name, ctx.Prog.Pos(ev.Pos), fmt.Sprintf("references recorded in %s are deleted under key %s, which is not the entry of %s being patched: they stay unpatched", name, kk, name))
 		}
 	}
 	// two byte stores at x and x+1 under the same guards are one 16-bit patch
